@@ -51,3 +51,8 @@ func YieldAtStore(nh *dragonboat.NodeHost, on bool)                             
 
 // Instant returns an arbitrary instant (not tied to the clock).
 func Instant() time.Time { return time.Time{} }
+
+// Tick lets every ticker fire once. NoDeadlock(label): from now on a state in
+// which every goroutine is blocked violates `label`.
+func Tick()                   {}
+func NoDeadlock(label string) {}
